@@ -6,7 +6,7 @@ namespace GoLevel.Dur
 
 /-- at `done` the manifest is settled, mirrored, and the session's journal number is the edit's -/
 theorem Inv.done_facts {cfg : Cfg} {s : St} {d : Disk} (h : Inv cfg s d) {j : Job} (hj : s.job = some j)
-    (hpc : j.pc = .done) :
+    (hpc : j.pc = .done) (hl : s.limbo = none) :
     ∃ mf v, curManifest d = some mf ∧ mf.unsynced = [] ∧ lastView cfg d = some v ∧ viewAt cfg mf 0 = some v ∧
       Mirror s v ∧ s.manifestOpen = true ∧ s.manifestFd = d.current ∧
       (∀ e, j.edit = some e → ∀ x, e.jn = some x → v.jn = x) := by
@@ -15,21 +15,53 @@ theorem Inv.done_facts {cfg : Cfg} {s : St} {d : Disk} (h : Inv cfg s d) {j : Jo
   have hok : JobOK cfg s d j := hok
   have hpost : j.pc.post = true := by rw [hpc]; rfl
   have hopen := h.post_open hj hpost
-  obtain ⟨mf, v, hcur, hun, hlv, hv0, hmir⟩ := hok.post_settled hpost hopen
+  obtain ⟨mf, v, hcur, hun, hlv, hv0, hmir⟩ := hok.post_settled hpost hopen hl
   have hnr : ∀ m, j.pc ≠ .rotRemove m := by rw [hpc]; intro m hm; cases hm
-  refine ⟨mf, v, hcur, hun, hlv, hv0, hmir, hopen, (h.mfd hj).fd hj hnr, fun e he x hx => ?_⟩
+  refine ⟨mf, v, hcur, hun, hlv, hv0, hmir, hopen, (h.mfd hj).fd hj hnr hl, fun e he x hx => ?_⟩
   rw [hmir.2.1]
   exact ((hok.post_facts hpost).2 e he).2 x hx
 
 theorem MfdOK.nojob {s : St} {d : Disk} (hj : s.job = none) (h : s.manifestFd = d.current) : MfdOK s d := by
-  unfold MfdOK; rw [hj]; exact h
+  unfold MfdOK; rw [hj]; exact Or.inl h
 
-theorem inv_done_flush {cfg : Cfg} {s : St} {d : Disk} (h : Inv cfg s d) {j : Job} (hj : s.job = some j)
-    (hpc : j.pc = .done) (hk : j.kind = .flush) : Inv cfg (finishJob s j) d := by
+/-- behind the commit only the job that drops an empty frozen buffer can run beside a storage that is ahead -/
+theorem Inv.done_limbo_none {cfg : Cfg} {s : St} {d : Disk} (h : Inv cfg s d) {j : Job} (hj : s.job = some j)
+    (hpc : j.pc = .done) (hk : j.kind ≠ .flush) : s.limbo = none := by
+  rcases h.post_cases hj (by rw [hpc]; rfl) with ⟨hl, _⟩ | ⟨_, hkf, _⟩
+  · exact hl
+  · exact absurd hkf hk
+
+/-- the limbo facts when a job that is not retrying its commit ends -/
+theorem LimboOK.finish {s s' : St} {d : Disk} (h : LimboOK s d) {j : Job} (hj : s.job = some j)
+    (hnret : j.pc.retry = false) (hj' : s'.job = none) (el : s'.limbo = s.limbo)
+    (ef : s'.manifestFailed = s.manifestFailed) (ejn : s'.stJn = s.stJn) (esq : s'.stSq = s.stSq)
+    (elive : s'.live = s.live) (eseq : s'.seq = s.seq) (hm : ∀ g ∈ must s', g ∈ must s)
+    (enf : s'.nextFile = s.nextFile) : LimboOK s' d := by
+  unfold LimboOK at h ⊢
+  rw [el]
+  refine Holds'.imp (o := s.limbo) h (fun u hu => ?_)
+  obtain ⟨a, b, c, e, f, g, k0, k⟩ := hu
+  refine ⟨by rw [ef]; exact a, b, c, by rw [ejn]; exact e, by rw [esq]; exact f, ?_, by rw [hj']; trivial, Or.inr ?_⟩
+  · intro t ht
+    rw [elive] at ht
+    rw [esq]
+    exact g t ht
+  · rcases k with k | k
+    · rw [hj] at k
+      obtain ⟨_, k2⟩ : j.edit = some u ∧ j.pc.retry = true := k
+      rw [hnret] at k2; cases k2
+    · obtain ⟨k1, k2, k3⟩ := k
+      refine ⟨k1, k2, k3.imp (fun t ht => ⟨ht.1, by rw [enf]; exact ht.2.1, ?_⟩)⟩
+      refine ht.2.2.imp (fun tf htf => ⟨htf.1, htf.2.1, htf.2.2.imp (fun g0 hg0 => ?_)⟩)
+      obtain ⟨m1, m2, m4, m5, m6, m7⟩ := hg0
+      exact ⟨m1, m2, fun hx => m4 (hm g0 hx), m5, by rw [eseq]; exact m6, by rw [hj']; trivial⟩
+
+theorem inv_done_flush_settled {cfg : Cfg} {s : St} {d : Disk} (h : Inv cfg s d) {j : Job} (hj : s.job = some j)
+    (hpc : j.pc = .done) (hk : j.kind = .flush) (hl : s.limbo = none) : Inv cfg (finishJob s j) d := by
   have hok := h.job
   rw [hj] at hok
   have hok : JobOK cfg s d j := hok
-  obtain ⟨mf, v, hcur, hun, hlv, hv0, hmir, hopen, hfd, hjn⟩ := h.done_facts hj hpc
+  obtain ⟨mf, v, hcur, hun, hlv, hv0, hmir, hopen, hfd, hjn⟩ := h.done_facts hj hpc hl
   have hkind := hok.kind
   unfold JobKindOK at hkind
   rw [hk] at hkind
@@ -47,9 +79,10 @@ theorem inv_done_flush {cfg : Cfg} {s : St} {d : Disk} (h : Inv cfg s d) {j : Jo
     exact hb.of_same rfl (seqHi_le_of_not_window (not_trWindow_of_kind hj (by rw [hk]; exact fun hx => nomatch hx))
       (not_trWindow_of_nojob rfl) (Nat.le_refl _)) (Nat.le_refl _) (fun hr => ⟨hr, Nat.le_refl _⟩)
   · intro _
-    obtain ⟨r1, r2, r3, r4, r5, r6, r7, r8, r9⟩ := hrun
+    obtain ⟨r1, r2, r3, r4, r5, r6, r7, r8, r9, _⟩ := hrun
     refine ⟨⟨r1.1, Holds'.imp (o := s.tr) r1.2 (fun g hg => ⟨hg.1, hg.2.1, rfl, hg.2.2.2⟩)⟩,
-      ⟨MfdOK.nojob rfl hfd, r2.2⟩, r3, r4, r5, r6, frozenOK_iff.2 (Or.inl ⟨rfl, rfl⟩), ?_, fun _ => ?_⟩
+      ⟨MfdOK.nojob rfl hfd, r2.2⟩, r3, r4, r5, r6, frozenOK_iff.2 (Or.inl ⟨rfl, rfl⟩), ?_, fun _ => ?_,
+      LimboOK.of_none hl⟩
     · apply holds_of_some hcur
       apply holds_of_some hv0
       intro p hp hjn0
@@ -85,18 +118,88 @@ theorem inv_done_flush {cfg : Cfg} {s : St} {d : Disk} (h : Inv cfg s d) {j : Jo
       · exact Or.inr (Or.inr h1)
     · unfold Settled
       rw [hcur]
-      exact ⟨fun _ => hun, by rw [hlv]; exact hmir⟩
+      exact ⟨fun _ _ => hun, by rw [hlv]; exact (MirrorL.of_none hl).2 hmir⟩
   · intro hc; rw [hph] at hc; cases hc
   · intro hc; rw [hph] at hc; cases hc
   · trivial
 
+
+/-- the job that only drops an empty frozen buffer ends; the storage may be one edit ahead of the session -/
+theorem inv_done_flush_noedit {cfg : Cfg} {s : St} {d : Disk} (h : Inv cfg s d) {j : Job} (hj : s.job = some j)
+    (hpc : j.pc = .done) (hk : j.kind = .flush) (he : j.edit = none) : Inv cfg (finishJob s j) d := by
+  have hok := h.job
+  rw [hj] at hok
+  have hok : JobOK cfg s d j := hok
+  have hpost : j.pc.post = true := by rw [hpc]; rfl
+  have hsett : Settled cfg s d (MirrorL s) := (hok.post_facts hpost).1
+  obtain ⟨mf, v0, hparts⟩ := h.disk.parts
+  have hcur := hparts.cur
+  have hv0 := hparts.hv0
+  have hkind := hok.kind
+  unfold JobKindOK at hkind
+  rw [hk] at hkind
+  simp only at hkind
+  obtain ⟨hph, hkind⟩ := hkind
+  have hrun := h.run hph
+  have hb := h.bounds (by rw [hph]; decide)
+  have hnr : ∀ m, j.pc ≠ .rotRemove m := by rw [hpc]; intro m hm; cases hm
+  unfold finishJob
+  rw [hk]
+  simp only
+  constructor
+  · exact h.disk
+  · exact h.mm
+  · intro _
+    exact hb.of_same rfl (seqHi_le_of_not_window (not_trWindow_of_kind hj (by rw [hk]; exact fun hx => nomatch hx))
+      (not_trWindow_of_nojob rfl) (Nat.le_refl _)) (Nat.le_refl _) (fun hr => ⟨hr, Nat.le_refl _⟩)
+  · intro _
+    obtain ⟨r1, r2, r3, r4, r5, r6, r7, r8, r9, r10⟩ := hrun
+    refine ⟨⟨r1.1, Holds'.imp (o := s.tr) r1.2 (fun g hg => ⟨hg.1, hg.2.1, rfl, hg.2.2.2⟩)⟩,
+      ⟨r2.1.transport (by rw [hj]; intro m hm; exact hnr m (Option.some.inj hm)) (by intro m hm; cases hm) rfl rfl rfl,
+        r2.2⟩, r3, r4, r5, r6, frozenOK_iff.2 (Or.inl ⟨rfl, rfl⟩), ?_, fun _ => hsett,
+      r10.finish hj (by rw [hpc]; rfl) rfl rfl rfl rfl rfl rfl rfl (fun _ hx => hx) rfl⟩
+    apply holds_of_some hcur
+    apply holds_of_some hv0
+    intro p hp hjn0
+    have q1 := holds_some r8 hcur
+    have q2 := holds_some q1 hv0
+    rcases q2 p hp hjn0 with h1 | h1 | h1
+    · exact Or.inl h1
+    · -- the frozen journal: empty
+      rcases frozenOK_iff.1 r7 with ⟨_, h3⟩ | ⟨fz, jf, h2, h3, f1, f2, _, _, f5, _⟩
+      · rw [h3] at h1; cases h1
+      rw [h3] at h1; cases h1
+      rw [h2, h3, he] at hkind
+      simp only at hkind
+      obtain ⟨_, b5, c5, e6⟩ := f5 p hp rfl
+      rw [hkind.1] at b5 c5 e6
+      refine Or.inr (Or.inr ⟨fun x hx => ⟨fun hm => (by cases b5 x hx hm), ?_⟩, fun hx => ?_⟩)
+      rotate_left
+      · apply List.eq_nil_iff_forall_not_mem.2
+        intro x hxa
+        cases e6 hx x hxa
+      show x.fin ≤ s.seq + 1
+      rcases c5 x hx with h4 | h4
+      · cases h4
+      · omega
+    · exact Or.inr (Or.inr h1)
+  · intro hc; rw [hph] at hc; cases hc
+  · intro hc; rw [hph] at hc; cases hc
+  · trivial
+
+theorem inv_done_flush {cfg : Cfg} {s : St} {d : Disk} (h : Inv cfg s d) {j : Job} (hj : s.job = some j)
+    (hpc : j.pc = .done) (hk : j.kind = .flush) : Inv cfg (finishJob s j) d := by
+  rcases h.post_cases hj (by rw [hpc]; rfl) with ⟨hl, _⟩ | ⟨he, _⟩
+  · exact inv_done_flush_settled h hj hpc hk hl
+  · exact inv_done_flush_noedit h hj hpc hk he
 
 theorem inv_done_recovMid {cfg : Cfg} {s : St} {d : Disk} (h : Inv cfg s d) {j : Job} (hj : s.job = some j)
     (hpc : j.pc = .done) (hk : j.kind = .recovMid) : Inv cfg (finishJob s j) d := by
   have hok := h.job
   rw [hj] at hok
   have hok : JobOK cfg s d j := hok
-  obtain ⟨mf, v, hcur, hun, hlv, hv0, hmir, hopen, hfd, hjn⟩ := h.done_facts hj hpc
+  have hl : s.limbo = none := h.done_limbo_none hj hpc (by rw [hk]; exact fun hx => nomatch hx)
+  obtain ⟨mf, v, hcur, hun, hlv, hv0, hmir, hopen, hfd, hjn⟩ := h.done_facts hj hpc hl
   have hkind := hok.kind
   unfold JobKindOK at hkind
   rw [hk] at hkind
@@ -141,7 +244,7 @@ theorem inv_done_recovMid {cfg : Cfg} {s : St} {d : Disk} (h : Inv cfg s d) {j :
       rfl
     · unfold Settled
       rw [hcur]
-      exact ⟨fun _ => hun, by rw [hlv]; exact ⟨hmir, (fun o' ho' => by cases ho')⟩⟩
+      exact ⟨fun _ _ => hun, by rw [hlv]; exact ⟨hmir, (fun o' ho' => by cases ho')⟩⟩
     · rw [hlv] at r9 ⊢
       refine ⟨fun p hp hge => ?_, r9.2⟩
       rcases r9.1 p hp hge with h1 | h1 | h1
@@ -158,7 +261,8 @@ theorem inv_done_recovFinal {cfg : Cfg} {s : St} {d : Disk} (h : Inv cfg s d) {j
   have hok := h.job
   rw [hj] at hok
   have hok : JobOK cfg s d j := hok
-  obtain ⟨mf, v, hcur, hun, hlv, hv0, hmir, hopen, hfd, hjn⟩ := h.done_facts hj hpc
+  have hl : s.limbo = none := h.done_limbo_none hj hpc (by rw [hk]; exact fun hx => nomatch hx)
+  obtain ⟨mf, v, hcur, hun, hlv, hv0, hmir, hopen, hfd, hjn⟩ := h.done_facts hj hpc hl
   have hkind := hok.kind
   unfold JobKindOK at hkind
   rw [hk] at hkind
@@ -199,9 +303,9 @@ theorem inv_done_recovFinal {cfg : Cfg} {s : St} {d : Disk} (h : Inv cfg s d) {j
     rw [seqHi_eq (not_trWindow_of_nojob rfl)]
     exact ⟨hbv.1, hbv.2.1, fun _ => by rw [hvjn, hjc]; exact Nat.le_refl _⟩
   · intro _
-    refine ⟨⟨rfl, by unfold TrOK; show Holds' s.tr _; rw [hrec.idle.2.2]; trivial⟩,
+    refine ⟨⟨rfl, by unfold TrOK; show Holds' s.tr _; rw [hrec.idle.2.2.1]; trivial⟩,
       ⟨MfdOK.nojob rfl hfd, hopen⟩, ?_, ?_, ⟨fun p hp => Or.inl (hrec.nums.1 p hp), hrec.nums.2.1⟩, ?_,
-      frozenOK_iff.2 (Or.inl ⟨rfl, rfl⟩), ?_, fun _ => ?_⟩
+      frozenOK_iff.2 (Or.inl ⟨rfl, rfl⟩), ?_, fun _ => ?_, LimboOK.of_none hl⟩
     · show Holds (lookup d.journals s.jcur) _
       have hl : lookup d.journals pn.1 = some pn.2 := lookup_of_mem hnd (by cases pn; exact hpn)
       rw [hjc, ← hpnn, hl]
@@ -231,7 +335,7 @@ theorem inv_done_recovFinal {cfg : Cfg} {s : St} {d : Disk} (h : Inv cfg s d) {j
       · exact Or.inl (by rw [hjc]; exact h1)
     · unfold Settled
       rw [hcur]
-      exact ⟨fun _ => hun, by rw [hlv]; exact hmir⟩
+      exact ⟨fun _ _ => hun, by rw [hlv]; exact (MirrorL.of_none hl).2 hmir⟩
   · intro hc; cases hc
   · intro hc; cases hc
   · trivial
@@ -241,7 +345,8 @@ theorem inv_done_compaction {cfg : Cfg} {s : St} {d : Disk} (h : Inv cfg s d) {j
   have hok := h.job
   rw [hj] at hok
   have hok : JobOK cfg s d j := hok
-  obtain ⟨mf, v, hcur, hun, hlv, hv0, hmir, hopen, hfd, hjn⟩ := h.done_facts hj hpc
+  have hl : s.limbo = none := h.done_limbo_none hj hpc (by rw [hk]; exact fun hx => nomatch hx)
+  obtain ⟨mf, v, hcur, hun, hlv, hv0, hmir, hopen, hfd, hjn⟩ := h.done_facts hj hpc hl
   have hkind := hok.kind
   unfold JobKindOK at hkind
   rw [hk] at hkind
@@ -261,14 +366,14 @@ theorem inv_done_compaction {cfg : Cfg} {s : St} {d : Disk} (h : Inv cfg s d) {j
     exact hb.of_same rfl (seqHi_le_of_not_window (not_trWindow_of_kind hj (by rw [hk]; exact fun hx => nomatch hx))
       (not_trWindow_of_nojob rfl) (Nat.le_refl _)) (Nat.le_refl _) (fun hr => ⟨hr, Nat.le_refl _⟩)
   · intro _
-    obtain ⟨r1, r2, r3, r4, r5, r6, r7, r8, r9⟩ := hrun
-    refine ⟨r1, ⟨MfdOK.nojob rfl hfd, r2.2⟩, r3, r4, r5, r6, ?_, r8, fun _ => ?_⟩
+    obtain ⟨r1, r2, r3, r4, r5, r6, r7, r8, r9, _⟩ := hrun
+    refine ⟨r1, ⟨MfdOK.nojob rfl hfd, r2.2⟩, r3, r4, r5, r6, ?_, r8, fun _ => ?_, LimboOK.of_none hl⟩
     · rcases frozenOK_iff.1 r7 with ⟨h1, h2⟩ | ⟨fz, jf, h1, h2, f1, f2, f3, f4, f5, f6⟩
       · exact frozenOK_iff.2 (Or.inl ⟨h1, h2⟩)
       · exact frozenOK_iff.2 (Or.inr ⟨fz, jf, h1, h2, f1, f2, f3, f4, f5, fun _ => f6 hfp⟩)
     · unfold Settled
       rw [hcur]
-      exact ⟨fun _ => hun, by rw [hlv]; exact hmir⟩
+      exact ⟨fun _ _ => hun, by rw [hlv]; exact (MirrorL.of_none hl).2 hmir⟩
   · intro hc; rw [hph] at hc; cases hc
   · intro hc; rw [hph] at hc; cases hc
   · trivial
@@ -279,7 +384,8 @@ theorem inv_done_tr {cfg : Cfg} {s : St} {d : Disk} (h : Inv cfg s d) {j : Job} 
   have hok := h.job
   rw [hj] at hok
   have hok : JobOK cfg s d j := hok
-  obtain ⟨mf, v, hcur, hun, hlv, hv0, hmir, hopen, hfd, hjn⟩ := h.done_facts hj hpc
+  have hl : s.limbo = none := h.done_limbo_none hj hpc (by rw [hk]; exact fun hx => nomatch hx)
+  obtain ⟨mf, v, hcur, hun, hlv, hv0, hmir, hopen, hfd, hjn⟩ := h.done_facts hj hpc hl
   have hkind := hok.kind
   unfold JobKindOK at hkind
   rw [hk] at hkind
@@ -344,8 +450,8 @@ theorem inv_done_tr {cfg : Cfg} {s : St} {d : Disk} (h : Inv cfg s d) {j : Job} 
     rw [seqHi_eq (not_trWindow_of_nojob rfl)]
     exact ⟨hbv.1, hbv.2.1, hbv.2.2⟩
   · intro _
-    obtain ⟨r1, r2, r3, r4, r5, r6, r7, r8, r9⟩ := hrun
-    refine ⟨⟨r1.1, trivial⟩, ⟨MfdOK.nojob rfl hfd, r2.2⟩, ?_, r4, r5, ?_, ?_, ?_, fun _ => ?_⟩
+    obtain ⟨r1, r2, r3, r4, r5, r6, r7, r8, r9, _⟩ := hrun
+    refine ⟨⟨r1.1, trivial⟩, ⟨MfdOK.nojob rfl hfd, r2.2⟩, ?_, r4, r5, ?_, ?_, ?_, fun _ => ?_, LimboOK.of_none hl⟩
     · refine r3.imp (fun jf hjf => ?_)
       rw [hmem, hw] at hjf
       have hbound : ∀ x ∈ jf.all, x.fin ≤ s.seq + 1 := by
@@ -381,7 +487,7 @@ theorem inv_done_tr {cfg : Cfg} {s : St} {d : Disk} (h : Inv cfg s d) {j : Job} 
       · rw [hfz] at h1; cases h1
     · unfold Settled
       rw [hcur]
-      exact ⟨fun _ => hun, by rw [hlv]; exact hmir⟩
+      exact ⟨fun _ _ => hun, by rw [hlv]; exact (MirrorL.of_none hl).2 hmir⟩
   · intro hc; rw [hph] at hc; cases hc
   · intro hc; rw [hph] at hc; cases hc
   · trivial
